@@ -21,6 +21,11 @@ func init() {
 	Registry["C16"] = Spec{
 		Pkgs: map[string][]string{"v2": {"resolve", "caching", "cachectl"}},
 		Run:  runC16,
+		Thorough: func(r *fw.Run) {
+			workspaceWhoMayCall(r, []wsCallRule{
+				{Rule: "C16-T1", What: "the entity cache store (caching.Cache.GetMany / SetMany) is called only from the response cache functions of package resolve", Callees: []string{"caching:Cache.GetMany", "caching:Cache.SetMany"}, Allowed: []string{"resolve:Loader.responseCacheLookup", "resolve:Loader.responseCacheFlush", "resolve:Loader.responseCacheStore"}, Why: "the store is called from outside the functions whose error handling is checked (C16-R4): a cache failure can fail the request, or entries are written that never passed the storability guards", Expected: 2},
+			})
+		},
 		Explanation: "Decides the structural half of 'entities are stored only from clean, explicitly public responses, for no longer than the response allows, and cache failures never fail a request': " +
 			"caching.TTL returns ok only on paths where the header parsed, no-store/no-cache/private are absent and public is present, and the duration it returns is s-maxage before max-age before the default, each tested positive; " +
 			"cache items are built only on paths dominated by every cleanliness test of responseCacheCollect and carry the TTL returned by caching.TTL; a cache hit is reported only when every key was found non-empty; " +
